@@ -43,6 +43,13 @@ def main(argv):
     ctx = Ctx(prop, tier, seed, shard, nshards, deadline=deadline)
     # hard watchdog: dump stacks and die (driver reports inconclusive)
     hard = float(os.environ.get('VERIF_HARD_TIMEOUT', '0') or 0)
+    # memory cap per worker: a runaway generator or student program must not take the machine down
+    try:
+        import resource
+        cap = int(float(os.environ.get('VERIF_MEM_GB', '3')) * (1 << 30))
+        resource.setrlimit(resource.RLIMIT_AS, (cap, cap))
+    except Exception:
+        pass
     if hard > 0:
         faulthandler.dump_traceback_later(hard, exit=True)
     ok, where = setup_import_root()
